@@ -94,7 +94,9 @@ fn run_generate(
     let mut config = if let Some(config_path) = config_file {
         // Explicit config file specified
         if config_path.exists() {
-            GenerateConfig::from_file(config_path)?
+            // Validated below, after the command-line overrides: a flag may replace exactly the
+            // value that is invalid in the file
+            GenerateConfig::from_file_unvalidated(config_path)?
         } else {
             return Err(format!("Configuration file not found: {}", config_path.display()).into());
         }
@@ -111,7 +113,7 @@ fn run_generate(
 
         for path in possible_paths {
             if path.exists() {
-                match GenerateConfig::from_tauri_config(&path) {
+                match GenerateConfig::from_tauri_config_unvalidated(&path) {
                     Ok(Some(loaded_config)) => {
                         config = loaded_config;
                         config_loaded = true;
